@@ -21,8 +21,8 @@ import (
 func init() {
 	ev.Register(&ev.Spec{
 		ID: "C19", Level: "exploration",
-		Rule:    "paged listings (next Offset = Offset of the last entry received) of real localfs temp directories, staticfs and composefs (flat, with localfs/staticfs mounts, nested WithDir), called on the File directly (entry counts) and through client+server (byte counts, several msize values); the multiset of names is compared with ground truth and every entry's QID/type with Walk+GetAttr. Non-trivial: the listing needed >= 2 pages; distinct by (fs, dir size, name class, count class, route).",
-		Assume:  []string{"directories are not modified while listed", "real temp directories under /verif/.scratch"},
+		Rule:    "paged listings (next Offset = Offset of the last entry received) of real localfs temp directories, staticfs and composefs (flat, with localfs/staticfs mounts, nested WithDir), called on the File directly (entry counts) and through client+server (byte counts, several msize values; the listing fid has one of nine histories behind it: fresh, listed before, restarted after one page, page counts varying, a second fid listing the same directory in alternation, and for localfs the directory or its ancestor renamed before or in the middle of the listing); the multiset of names is compared with ground truth and every entry's QID/type with Walk+GetAttr. Non-trivial: the listing needed >= 2 pages; distinct by (fs, dir size, name class, count class, route).",
+		Assume:  []string{"directory contents are not modified while listed (the directory itself or an ancestor may be renamed)", "real temp directories under /verif/.scratch"},
 		Shards:  shards(8, 16),
 		Timeout: timeout(5*time.Minute, 40*time.Minute),
 		Run:     runC19,
@@ -34,6 +34,8 @@ type c19fs struct {
 	names []string // ground truth of the listed directory
 	att   p9.Attacher
 	path  []string // walk from the attach point to the listed directory
+	// writable: path is {"top","sub"} on a real directory that may be renamed
+	writable bool
 	clean func()
 }
 
@@ -62,9 +64,9 @@ func c19Local(c *ev.Ctx, n, nl int) (*c19fs, error) {
 		return nil, err
 	}
 	names := c19Names(n, nl)
-	os.Mkdir(filepath.Join(dir, "sub"), 0755)
+	os.MkdirAll(filepath.Join(dir, "top", "sub"), 0755)
 	for i, nm := range names {
-		p := filepath.Join(dir, "sub", nm)
+		p := filepath.Join(dir, "top", "sub", nm)
 		switch i % 5 {
 		case 1:
 			err = os.Mkdir(p, 0755)
@@ -78,7 +80,7 @@ func c19Local(c *ev.Ctx, n, nl int) (*c19fs, error) {
 			return nil, err
 		}
 	}
-	return &c19fs{kind: "localfs", names: names, att: localfs.Attacher(dir), path: []string{"sub"}, clean: func() { os.RemoveAll(dir) }}, nil
+	return &c19fs{kind: "localfs", names: names, att: localfs.Attacher(dir), path: []string{"top", "sub"}, writable: true, clean: func() { os.RemoveAll(dir) }}, nil
 }
 
 func c19Static(n, nl int) (*c19fs, error) {
@@ -368,6 +370,7 @@ func c19Served(c *ev.Ctx, f *c19fs, nl int) {
 		}
 	}
 	one := uint32(24 + longest)
+	vseq := len(f.names) + nl
 	for _, ms := range []uint32{4096, 65536, 1 << 20} {
 		counts := []uint32{one, one + 1, 2*one - 1, 100, 4096, ms - 11, ms, 2 * ms, 1<<32 - 1}
 		srv := p9.NewServer(f.att)
@@ -382,53 +385,44 @@ func c19Served(c *ev.Ctx, f *c19fs, nl int) {
 			cc.Close()
 			continue
 		}
-		for _, cnt := range counts {
+		for ci, cnt := range counts {
 			if cnt < one {
 				continue // the statement requires that one entry fits
 			}
+			variants := c19Variants(f)
+			vseq++
+			variant := variants[(vseq+ci)%len(variants)]
 			done := make(chan struct{})
-			var ents []p9.Dirent
-			var pages int
-			var perr error
-			var wdir p9.File
+			var l c19Listing
 			go func() {
 				defer close(done)
-				root, e := cl.Attach("")
-				if e != nil {
-					perr = e
-					return
-				}
-				dir := root
-				if len(f.path) > 0 {
-					_, dir, e = root.Walk(f.path)
-					if e != nil {
-						perr = e
-						return
-					}
-				} else {
-					_, dir, _ = root.Walk(nil)
-				}
-				_, wdir, _ = dir.Walk(nil)
-				if _, _, e := dir.Open(p9.ReadOnly); e != nil {
-					perr = e
-					return
-				}
-				ents, pages, perr = c19Page(dir.Readdir, cnt, 3*len(f.names)+10)
-				dir.Close()
+				l = c19List(cl, f, cnt, one, variant)
 			}()
 			if out, dump := quiesce.Await(done, 2*wd); out != quiesce.CondMet {
-				hang(c, out, dump, "C19:"+f.kind+":served-listing-hangs", map[string]any{"count": cnt, "msize": ms})
+				hang(c, out, dump, "C19:"+f.kind+":served-listing-hangs", map[string]any{"count": cnt, "msize": ms, "history": variant})
 				break
 			}
-			if wdir == nil {
-				c.Inconclusive(fmt.Sprintf("C19 served setup: %v", perr))
+			if l.wdir == nil {
+				c.Inconclusive(fmt.Sprintf("C19 served setup (%s): %v", variant, l.err))
 				continue
 			}
 			cmp := make(chan struct{})
 			go func() {
 				defer close(cmp)
-				c19Compare(c, f, "served", cnt, ents, pages, perr, wdir, fmt.Sprintf("n%d:ms%d:c%s", nl, ms, scClass(cnt, one, ms)))
-				wdir.Close()
+				route := "served"
+				if variant != "plain" {
+					route = "served+" + variant
+				}
+				if l.other != nil {
+					c19Compare(c, f, route+":second-fid", cnt, l.other, l.pages, l.err, l.wdir, fmt.Sprintf("n%d:ms%d:c%s", nl, ms, scClass(cnt, one, ms)))
+				}
+				c19Compare(c, f, route, cnt, l.ents, l.pages, l.err, l.wdir, fmt.Sprintf("n%d:ms%d:c%s", nl, ms, scClass(cnt, one, ms)))
+				l.wdir.Close()
+				if l.restore != nil {
+					if e := l.restore(); e != nil {
+						c.Inconclusive("C19 restore after rename: " + e.Error())
+					}
+				}
 			}()
 			if out, dump := quiesce.Await(cmp, 2*wd); out != quiesce.CondMet {
 				hang(c, out, dump, "C19:"+f.kind+":served-walk-hangs", nil)
@@ -438,6 +432,179 @@ func c19Served(c *ev.Ctx, f *c19fs, nl int) {
 		cc.Close()
 		quiesce.Await(hd, wd)
 	}
+}
+
+// c19Variants: the histories a listing fid may have behind it. None of them
+// changes the directory's content.
+func c19Variants(f *c19fs) []string {
+	v := []string{"plain", "twice", "mixed-counts", "two-fids", "restart"}
+	if f.writable {
+		v = append(v, "renamed-before", "ancestor-renamed-before", "renamed-mid-listing", "ancestor-renamed-mid-listing")
+	}
+	return v
+}
+
+type c19Listing struct {
+	ents, other []p9.Dirent
+	pages       int
+	err         error
+	wdir        p9.File
+	restore     func() error
+}
+
+// c19List lists f's directory through client cl with byte count cnt after /
+// during the history named by variant.
+func c19List(cl *p9.Client, f *c19fs, cnt, one uint32, variant string) (l c19Listing) {
+	root, e := cl.Attach("")
+	if e != nil {
+		l.err = e
+		return
+	}
+	open := func() (p9.File, error) {
+		_, d, e := root.Walk(f.path)
+		if e != nil {
+			return nil, e
+		}
+		if _, _, e := d.Open(p9.ReadOnly); e != nil {
+			return nil, e
+		}
+		return d, nil
+	}
+	_, wdir, e := root.Walk(f.path)
+	if e != nil {
+		l.err = e
+		return
+	}
+	dir, e := open()
+	if e != nil {
+		l.err = e
+		wdir.Close()
+		return
+	}
+	defer dir.Close()
+	l.wdir = wdir
+	max := 3*len(f.names) + 10
+	rename := func(anc bool) error {
+		if anc {
+			if e := root.RenameAt("top", root, "top2"); e != nil {
+				return e
+			}
+			l.restore = func() error { return root.RenameAt("top2", root, "top") }
+			return nil
+		}
+		_, top, e := root.Walk([]string{"top"})
+		if e != nil {
+			return e
+		}
+		if e := top.RenameAt("sub", top, "sub2"); e != nil {
+			top.Close()
+			return e
+		}
+		l.restore = func() error { defer top.Close(); return top.RenameAt("sub2", top, "sub") }
+		return nil
+	}
+	switch variant {
+	case "plain":
+		l.ents, l.pages, l.err = c19Page(dir.Readdir, cnt, max)
+	case "twice":
+		if _, _, e := c19Page(dir.Readdir, cnt, max); e != nil {
+			l.err = e
+			return
+		}
+		l.ents, l.pages, l.err = c19Page(dir.Readdir, cnt, max)
+	case "restart":
+		if _, e := dir.Readdir(0, cnt); e != nil {
+			l.err = e
+			return
+		}
+		l.ents, l.pages, l.err = c19Page(dir.Readdir, cnt, max)
+	case "mixed-counts":
+		alt := []uint32{cnt, one, 2 * one, 4096, 3*one + 7}
+		i := 0
+		l.ents, l.pages, l.err = c19Page(func(off uint64, _ uint32) (p9.Dirents, error) {
+			i++
+			k := alt[i%len(alt)]
+			if k < one {
+				k = one
+			}
+			return dir.Readdir(off, k)
+		}, cnt, max)
+	case "two-fids":
+		dir2, e := open()
+		if e != nil {
+			l.err = e
+			return
+		}
+		defer dir2.Close()
+		offA, offB := uint64(0), uint64(0)
+		doneA, doneB := false, false
+		for !doneA || !doneB {
+			if !doneA {
+				d, e := dir.Readdir(offA, cnt)
+				if e != nil {
+					l.err = e
+					return
+				}
+				if len(d) == 0 {
+					doneA = true
+				} else {
+					l.pages++
+					l.ents = append(l.ents, d...)
+					offA = d[len(d)-1].Offset
+				}
+			}
+			if !doneB {
+				d, e := dir2.Readdir(offB, cnt)
+				if e != nil {
+					l.err = e
+					return
+				}
+				if len(d) == 0 {
+					doneB = true
+				} else {
+					l.other = append(l.other, d...)
+					offB = d[len(d)-1].Offset
+				}
+			}
+			if len(l.ents) > max || len(l.other) > max {
+				l.err = fmt.Errorf("listing does not terminate (>%d entries)", max)
+				return
+			}
+		}
+		if l.other == nil {
+			l.other = []p9.Dirent{}
+		}
+	case "renamed-before", "ancestor-renamed-before":
+		if e := rename(variant == "ancestor-renamed-before"); e != nil {
+			l.err = fmt.Errorf("rename: %v", e)
+			return
+		}
+		l.ents, l.pages, l.err = c19Page(dir.Readdir, cnt, max)
+	case "renamed-mid-listing", "ancestor-renamed-mid-listing":
+		first, e := dir.Readdir(0, cnt)
+		if e != nil {
+			l.err = e
+			return
+		}
+		if e := rename(variant == "ancestor-renamed-mid-listing"); e != nil {
+			l.err = fmt.Errorf("rename: %v", e)
+			return
+		}
+		if len(first) == 0 {
+			return
+		}
+		l.ents = append(l.ents, first...)
+		off := first[len(first)-1].Offset
+		rest, pages, e := c19Page(func(o uint64, k uint32) (p9.Dirents, error) {
+			if o == 0 {
+				o = off
+			}
+			return dir.Readdir(o, k)
+		}, cnt, max)
+		l.ents = append(l.ents, rest...)
+		l.pages, l.err = pages+1, e
+	}
+	return
 }
 
 func scClass(cnt, one, ms uint32) string {
